@@ -742,7 +742,68 @@ def conc_programs(rng, count):
     return progs
 
 
-def run_check(pid, modules, theorems, keys, build_programs, argv, meta, want_fork=False):
+def log_mutants(evs):
+    """Corrupted versions of a valid log (the malformed stream): each must be rejected by the monitor."""
+    evs = [e for e in evs if e[2] in KEEP]
+    out = []
+
+    def first(pred, start=0):
+        return next((i for i in range(start, len(evs)) if pred(evs[i])), None)
+    i = first(lambda e: e[2] == K["MonRequested"] and e[4] == 1)
+    if i is not None:
+        j = first(lambda e: e[2] == K["MonNotify"] and e[1] == evs[i][1], i)
+        if j is not None:
+            out.append(("drop-notify-after-request", evs[:j] + evs[j + 1:]))
+    i = first(lambda e: e[2] == K["BucketClose"] and e[3] > 2)
+    if i is not None:
+        out.append(("drop-bucket-close", evs[:i] + evs[i + 1:]))
+    i = first(lambda e: e[2] == K["PacketStart"])
+    if i is not None:
+        j = first(lambda e: e[2] == K["PacketEnd"] and e[1] == evs[i][1], i)
+        if j is not None:
+            out.append(("packet-runs-twice", evs[:j + 1] + [evs[i], evs[j]] + evs[j + 1:]))
+            out.append(("drop-packet-end", evs[:j] + evs[j + 1:]))
+    i = first(lambda e: e[2] == K["BucketOpen"] and e[3] > 3)
+    if i is not None:
+        g = max(j for j in range(i) if evs[j][2] == K["MonPark"] and evs[j][1] == evs[i][1])
+        out.append(("open-before-park", evs[:g] + [evs[i]] + evs[g:i] + evs[i + 1:]))
+    i = first(lambda e: e[2] == K["BqPush"] and e[1] >= 100 and (e[4] & 0xff) > 12)
+    if i is not None:
+        seq, tid = evs[i][0], evs[i][1]
+        out.append(("notify-on-closed-bucket", evs[:i + 1] + [(seq, tid, K["MonNotify"], 0, 0)] + evs[i + 1:]))
+    i = first(lambda e: e[2] == K["MonPark"] and e[4] == 1)
+    if i is not None:
+        e = evs[i]
+        out.append(("all-parked-flag-flipped", evs[:i] + [(e[0], e[1], e[2], e[3], 0)] + evs[i + 1:]))
+    i = first(lambda e: e[2] == K["VmResume"])
+    if i is not None:
+        j = max(k for k in range(i) if evs[k][2] == K["GcFinishedBegin"])
+        out.append(("resume-before-closes", evs[:j + 1] + [evs[i]] + evs[j + 1:i] + evs[i + 1:]))
+    return out
+
+
+def monitor_selftest(model, results):
+    """The monitor must reject every corrupted log (otherwise it would be vacuous)."""
+    stat, accepted = defaultdict(lambda: [0, 0]), []
+    done = 0
+    for r in results:
+        if done >= 3 or not r.stats or r.prog.plan == "ConcurrentImmix":
+            continue
+        done += 1
+        for name, evs2 in log_mutants(r.evs):
+            v, st = lean_replay(model, annotate(evs2, r.prog.workers), r.prog.workers, False)
+            stat[name][0] += 1
+            if v.startswith("viol"):
+                stat[name][1] += 1
+            else:
+                accepted.append(f"{name} on {r.prog.name}")
+        v, st = lean_replay(model, [("garbage",)], r.prog.workers, False)
+        stat["malformed-token"][0] += 1
+        stat["malformed-token"][1] += 1 if v.startswith("viol") else 0
+    return {k: {"mutants": a, "rejected": b} for k, (a, b) in stat.items()}, accepted
+
+
+def run_check(pid, modules, theorems, keys, build_programs, argv, meta, want_fork=False, extra=None):
     """Common main of C14/C15/C16/C11: Lean obligations, real GCs, monitor + oracles, evidence."""
     a = std_args(argv)
     t0 = time.time()
@@ -805,6 +866,15 @@ def run_check(pid, modules, theorems, keys, build_programs, argv, meta, want_for
                           r.stats.get("packets")))
             if len(samples) < 3:
                 samples.append({"program": p.name, "head": p.text()[:8], "events": len(r.toks), "monitor": r.verdict[:300]})
+    extra_cov = {}
+    if extra is not None:
+        ev, extra_cov = extra(rng, a.tier)
+        violations += ev
+    selftest, accepted = monitor_selftest(E.model_exe(), results)
+    if accepted:
+        violations.append(Violation("sched:monitor-accepts-corrupted-log",
+                                    "the Lean monitor accepted corrupted event logs: " + "; ".join(accepted[:5]),
+                                    None, None, None, False, broken="event-log conformance monitor (would no longer detect such logs)"))
     if not lean["ok"]:
         names = [f.get("theorem") or f.get("module") or f["kind"] for f in lean["failures"]]
         if not any(v.found_input for v in violations):
@@ -819,6 +889,7 @@ def run_check(pid, modules, theorems, keys, build_programs, argv, meta, want_for
         "samples": samples, "traces_validated_against_impl": n_ok, "gcs_replayed": gcs, "events_replayed": total_events,
         "monitor_totals": dict(agg), "distribution": dict(dist), "harness_build_s": builds, "lean_s": lean.get("lean_s"),
         "failures_owned_by_other_sched_properties": dict(other),
+        "monitor_selftest_corrupted_logs": selftest, **extra_cov,
     }
     return E.finish(pid, a.tier, a.seed, t0, lean, corr, violations, level="proof of the model; partial w.r.t. the code",
                     assumptions=meta.get("assumptions", [
